@@ -190,7 +190,13 @@ func (x *Exec) check(extra *Term, keep bool) SatResult {
 	if len(x.injective) > 0 {
 		x.flushInjectivity()
 	}
+	t0 := time.Now()
 	r, err := x.solver.Check(x.pc, extra, keep)
+	if debugForks {
+		if d := time.Since(t0); d > 2*time.Second {
+			fmt.Fprintf(os.Stderr, "SLOWQ %.1fs result=%v pc=%d at %s\n", d.Seconds(), r, len(x.pc), x.stackString())
+		}
+	}
 	if err != nil {
 		x.end(endUnsupported, "solver error: %v", err)
 	}
